@@ -382,6 +382,9 @@ func (env *Env) run(c *Case) *Result {
 			}
 			os.Remove(name)
 		}
+	case 7:
+		// the document in a *bytes.Buffer (a reader that has ReadString / ReadBytes / WriteTo methods of its own)
+		rdI = bytes.NewBuffer(append([]byte{}, c.Doc...))
 	case 5:
 		// the (fault-injecting) reader behind a *bufio.Reader: a reader that "is already buffered"
 		rdI = bufio.NewReaderSize(rd, 512)
@@ -476,6 +479,21 @@ func (env *Env) run(c *Case) *Result {
 					res.VisitsAfter++
 				}
 				kept = append(kept, wn) // the node is read after the loop: it must stay what it was when it was yielded
+				if c.Nest > 0 && i == c.Nest-1 {
+					inner := seq
+					if c.Nest%2 == 0 {
+						inner = gtree.WalkIterFromRoot(node, opts...)
+					}
+					for _, e2 := range inner {
+						if e2 != nil {
+							return e2
+						}
+						res.InnerVisits++
+						if c.NestBreak {
+							break
+						}
+					}
+				}
 				if c.Faults.BreakAt >= 0 && i == c.Faults.BreakAt {
 					stopped = true
 					break
